@@ -124,14 +124,19 @@ package geom
 //@ func MergeRects
 //@   modifies Elems[P], alloc
 //@   ensures[frame] forall t []P, j int :: old(allocatedArr(t)) ==> t[j] == old(t[j])
+//@   ensures[size] len(result.Points) == 4 * len(rects)
+//@   requires[|C01] len(rects) >= 1
 //@   loop range(rects)#1 index a
 //@     invariant !old(allocatedArr(now(lps))) && !old(allocatedArr(now(rps)))
+//@     invariant[|C01] np == 2 * len(rects) && len(lps) <= 2 * a && len(rps) <= 2 * a && (a >= 1 ==> len(lps) <= 2 * a - 1 && len(rps) <= 2 * a - 1)
 //@     invariant forall t []P, j int :: old(allocatedArr(t)) ==> t[j] == old(t[j])
 //@   loop for(i<len(lps))#1
 //@     invariant !old(allocatedArr(now(points)))
+//@     invariant[|C01] 0 <= i && i <= len(lps) && len(points) == 4 * len(rects) && len(lps) <= 2 * len(rects) && len(rps) <= 2 * len(rects)
 //@     invariant forall t []P, j int :: old(allocatedArr(t)) ==> t[j] == old(t[j])
 //@   loop for(j>=0)#1
 //@     invariant !old(allocatedArr(now(points)))
+//@     invariant[|C01] 0 - 1 <= j && j < len(rps) && i == len(lps) + (len(rps) - 1 - j) && len(points) == 4 * len(rects) && len(lps) <= 2 * len(rects) && len(rps) <= 2 * len(rects)
 //@     invariant forall t []P, j int :: old(allocatedArr(t)) ==> t[j] == old(t[j])
 
 // ---------------------------------------------------------------------------
